@@ -170,7 +170,9 @@ class Exec:
         L = self.L
         d = self._decide(2)
         c = cond if d == 0 else L.Not(cond)
-        if d >= len(self.prefix) or True:
+        if self.pos >= len(self.prefix):
+            # decisions strictly inside the prefix were found feasible when they were first taken; only the flipped
+            # last decision of the prefix and fresh decisions are checked
             if not self.feasible(c):
                 raise Infeasible()
         self.pc.append(c)
@@ -178,6 +180,62 @@ class Exec:
 
     def choose(self, n):
         return self._decide(n)
+
+    def closure(self, E, name="rtc"):
+        """Reflexive-transitive closure of E.  If a closure of a relation that is provably (under the current path
+        condition) the same relation already exists, that symbol is reused: equal relations have equal closures.
+        This keeps the number of closure symbols -- and of pairwise simulation lemmas -- small."""
+        L = self.L
+        if L.k is None:
+            x, y = L.node("cx"), L.node("cy")
+            e = E(x, y)
+            for nm, R, C in L.closures:
+                r = R(x, y)
+                if z3.eq(z3.simplify(r), z3.simplify(e)):
+                    return C
+                s = z3.Solver()
+                s.set("timeout", 300)
+                fs = list(self.pc) + [r != e]
+                for a in L.relevant_axioms(fs):
+                    s.add(a)
+                for f in fs:
+                    s.add(f)
+                if s.check() == z3.unsat:
+                    return C
+        return self.lib.closure(self, E, name)
+
+    def define(self, arity, fn, hint="def"):
+        """A fresh predicate symbol defined to be `fn` (closed over the enclosing iteration constants).  Naming the
+        intermediate sets keeps the verification conditions small: the solver sees atoms, not unfolded formulas."""
+        L = self.L
+        bs = list(self.binders)
+        nm = L.fresh_name(hint)
+        F = z3.Function(nm, *([L.Node] * (len(bs) + arity)), L.B)
+        xs = [L.node("d") for _ in range(arity)]
+        rhs = fn(*xs)
+        body = F(*bs, *xs) == rhs
+        L.add_axioms({nm}, [L.forall_c(bs + xs, body)])
+        L.defs[nm] = (bs + xs, rhs)
+        return lambda *ys: F(*bs, *ys)
+
+    def name_value(self, v, hint="r"):
+        """Result of a callee used through its contract: fresh symbols constrained by the postcondition."""
+        if self.L.k is not None:
+            return v          # finite exact mode expands everything anyway
+        if isinstance(v, VSet) and not hasattr(v, "nx_view"):
+            r = VSet(self.define(v.arity, v.pred, hint), arity=v.arity, kind=v.kind, owned=v.owned)
+            for k in ("seq_view", "known_empty"):
+                if hasattr(v, k):
+                    setattr(r, k, getattr(v, k))
+            return r
+        if isinstance(v, VNx):
+            return VNx(v.directed, self.define(1, v.curN, hint + ".N"), self.define(2, v.curE, hint + ".E"), owned=v.owned,
+                       nattrs=v.nattrs, gattrs=v.gattrs)
+        if isinstance(v, VGraph):
+            return VGraph(self.name_value(v.directed, hint + ".d"), self.name_value(v.undirected, hint + ".u"), owned=v.owned)
+        if isinstance(v, VFam):
+            return VFam(self.define(1, v.idx, hint + ".idx"), self.define(2, v.mem, hint + ".mem"))
+        return v
 
     def assume(self, cond):
         if not z3.is_true(cond):
@@ -415,7 +473,7 @@ class Exec:
             self.assume(cond)
         for exc, cond in con.raises(self, a).items():
             self.require(L.Not(cond), exc, f"{short}#{k}")
-        return con.result(self, a)
+        return self.name_value(con.result(self, a), short)
 
     # ================================================================ statements
     def run_body(self, body):
